@@ -175,6 +175,20 @@ def props_terminate(E, res):
         P.append(tagged('C07', "only the calling provider's own deals are terminated", addr_eq(fget(E, d, DPF['provider'], ADDR), rt.caller)))
         P.append(tagged('C07', 'a deal that already reached its end epoch is not slashed', fget(E, d, DPF['end_epoch'], 'i64').v > env['term_epoch']))
         P.append(tagged('C07', 'the deal is slashed as of the termination epoch given by the miner', fget(E, stt, DSF['slash_epoch'], 'i64').v == env['term_epoch']))
+    # every live (unexpired) deal of the terminated sectors is slashed: none is skipped
+    slashed_names = [getattr(E.deref(x['deal']), 'name', None) or getattr(E.deref(x['deal']), 'lazy', None) for x in slashed]
+    for did in env['ids']:
+        bp, bv = base_lookup(E, 'map(st.%d)' % ST['proposals'], ('int', did))
+        if bp is None:
+            P.append(tagged('C07', 'every deal of the terminated sectors is examined (none is skipped)', False))
+            continue
+        if bp is not True:
+            continue            # no proposal on record (already cleaned up): nothing to do for this id
+        bv = E.deref(bv)
+        nm = getattr(bv, 'name', None) or getattr(bv, 'lazy', None)
+        live = fget(E, bv, DPF['end_epoch'], 'i64').v > env['term_epoch']
+        P.append(tagged('C07', 'every deal of the terminated sectors that has not reached its end epoch is slashed (none is skipped)',
+                        z3.Implies(live, z3.BoolVal(nm in slashed_names))))
     # every slashed deal is removed: no overlay write leaves a state/proposal behind
     for m_, what in ((sm, 'deal state'), (pm, 'proposal')):
         if slashed:
